@@ -112,9 +112,13 @@ def leadComment (fuel : Nat) (s0 : Bytes) : Outcome Bytes :=
   | '/' :: '*' :: r => skipComment fuel ('*' :: r)
   | _ => .ok s0
 
+/-- what `readInstanceNumber` skips before `#` (regenerated shape) -/
+def beforeHash (fuel : Nat) (s : Bytes) : Outcome Bytes :=
+  if leadGap then skipWSC fuel s else leadComment fuel (skipWS s)
+
 /-- `sectionReader::readInstanceNumber`; `.ok (0, _)` is the "no instance here" answer -/
 def readInstanceNumber (fuel : Nat) (s : Bytes) : Outcome (Nat × Bytes) :=
-  match leadComment fuel (skipWS s) with
+  match beforeHash fuel s with
   | .ok s1 =>
     match skipWS s1 with
     | '#' :: r =>
